@@ -160,6 +160,7 @@ DEFAULT_PROFILE = {
     "p_latency": 0.6,
     "p_shuffle_keys": 0.3,
     "p_repeat_level": 0.0,
+    "p_early_finish_pbt": 0.0,
     "p_io_latency": 0.5,
     "p_async_stop": 0.15,
     "p_nodelay_false": 0.12,
@@ -492,6 +493,10 @@ def gen_scenario(root, profile=None):
     if r2.chance(p["p_shuffle_keys"]) and p["world"] != "sim":
         script["shuffle_keys"] = True  # the script lists the entries of a report in varying order
     script["level_noise"] = r2.choice([0.4, 0.4, 0.15, 0.05])
+    if kind == "pbt" and r2.chance(p["p_early_finish_pbt"]) and max_t >= 3:
+        # population-based training on scripts some of which end on their own before the maximum resource: such a
+        # trial completes without the scheduler having stopped it and stays in the population
+        script["early_finish"] = {"p": r2.choice([0.3, 0.6]), "at": r2.randint(1, max_t - 1)}
     if script.get("payload") and r2.chance(0.15):
         script["payload"] = list(script["payload"]) + ["cr"]
     if r2.chance(p["p_repeat_level"]) and kind in ("hb_stopping", "hb_rush_stopping"):
